@@ -1157,6 +1157,10 @@ _dispatch_operation_enqueue(dispatch_operation_t op,
 	int err = _dispatch_io_get_error(NULL, op->channel, false);
 	if (err) {
 		dispatch_io_handler_t handler = op->handler;
+		// Keep the channel alive until the handler has been called, like the
+		// other completion paths do: the operation's reference goes away below
+		dispatch_io_t channel = op->channel;
+		_dispatch_retain(channel);
 		dispatch_async(op->op_q, ^{
 			dispatch_data_t d = data;
 			if (direction == DOP_DIR_READ && err) {
@@ -1165,6 +1169,7 @@ _dispatch_operation_enqueue(dispatch_operation_t op,
 				d = NULL;
 			}
 			handler(true, d, err);
+			_dispatch_release(channel);
 			_dispatch_io_data_release(data);
 		});
 		_dispatch_op_debug("release -> %d, err %d", op, op->do_ref_cnt, err);
